@@ -36,7 +36,7 @@ PROPS = {
     "C03": dict(parts=[Z("C03", w=3), Z("C01", w=1)], quick=24000, thorough=1200000, nontrivial=["fd_cb"], level="exploration"),
     "C04": dict(parts=[Z("C04", w=4), Z("C05", scen="timers")], quick=24000, thorough=1200000, nontrivial=["timer_fired", "block"], level="exploration"),
     "C05": dict(parts=[Z("C05", scen="timers", w=3), Z("C04")], quick=2500, thorough=120000, nontrivial=["timer_many"], level="exploration"),
-    "C06": dict(parts=[Z("C06")], quick=24000, thorough=1200000, nontrivial=["task_ran"], level="exploration"),
+    "C06": dict(parts=[Z("C06", w=4), Z("C18", w=1)], quick=24000, thorough=1200000, nontrivial=["task_ran"], level="exploration"),
     "C07": dict(parts=[Z("C07", w=6), Z("C13", scen="pool", w=2), Z("C19", scen="popen", w=2), Z("C11", scen="wait"), Z("C10", scen="sig"),
                        Z("C20", scen="inot"), Z("C17", scen="pump"), Z("C05", scen="timers")], quick=24000, thorough=1200000, nontrivial=["block"], level="exploration"),
     "C08": dict(parts=[Z("C08")], quick=20000, thorough=1000000, nontrivial=["post_cross", "event_cb"], level="exploration"),
@@ -51,7 +51,7 @@ PROPS = {
                        Z("C20", "tsan", w=1, scen="inot")],
                 quick=9500, thorough=400000, quick_s=85, nontrivial=[],
                 nontrivial_any=["post_cross", "sim_libthreads", "sim_sigdel", "sim_reaps"], level="exploration"),
-    "C15": dict(parts=[Z("C15", mode="enum", w=4), Z("C17", scen="pump", mode="enum", w=1), Z("C09", mode="enum", w=2)], quick=300, thorough=12000, nontrivial=["block"], level="fault_enumeration"),
+    "C15": dict(parts=[Z("C15", mode="enum", w=4), Z("C17", scen="pump", mode="enum", w=1), Z("C09", mode="enum", w=2)], extra_parts=[Z("C01", w=1), Z("C02", w=1)], extra_runs=6000, extra_s=24, quick=300, thorough=12000, nontrivial=["block"], level="fault_enumeration"),
     "C17": dict(parts=[Z("C17", scen="pump")], quick=6000, thorough=300000, nontrivial=["pump_bytes"], level="exploration"),
     "C18": dict(parts=[Z("C18", w=4), Z("C13", scen="pool", w=3), Z("C10", scen="sig"), Z("C11", scen="wait"), Z("C19", scen="popen"),
                        Z("C17", scen="pump"), Z("C20", scen="inot"), Z("C05", scen="timers")], quick=30000, thorough=1200000, quick_s=75, nontrivial=["cycles"], level="exploration"),
@@ -449,13 +449,20 @@ def check(prop, tier_name):
     resample = min(200, max(30, total // 100))
     try:
         wsum = sum(p["w"] for p in cfg["parts"])
-        for fi, part in enumerate(cfg["parts"]):
+        work = [(fi, part, max(1, total * part["w"] // wsum), seconds * part["w"] / wsum) for fi, part in enumerate(cfg["parts"])]
+        # extra parts have a run count and a time budget of their own (plain exploration next to an enumeration)
+        xp = cfg.get("extra_parts", [])
+        for xi, part in enumerate(xp):
+            work.append((len(cfg["parts"]) + xi, part, cfg["extra_runs"] * (20 if tier else 1) // len(xp),
+                         float(os.environ.get("VERIF_SECONDS", cfg["extra_s"] * (8 if tier else 1))) / len(xp)))
+            if part["flav"] not in exes:
+                exes[part["flav"]] = ivbuild.build(part["flav"])
+        for fi, part, share, secs in work:
             fl = part["flav"]
             if fl == "tsan":
                 os.environ["TSAN_OPTIONS"] = "log_path=%s/tsan suppressions=%s/sim/tsan.supp" % (outdir, VERIF)
-            share = max(1, total * part["w"] // wsum)
             for line in run_workers(exes[fl], part["mode"], part["scen"], part["profile"], tier, base + 1000003 * fi, share, outdir,
-                                    seconds * part["w"] / wsum):
+                                    secs):
                 if line.startswith("RUN "):
                     r = parse_run_line(line)
                     r["part"] = part
@@ -525,7 +532,7 @@ def evidence(prop, tier_name, base, cfg, agg, wall, nviol, exes):
         rule="one evaluation = one simulated run of a seeded plan (scenario/profile/flavour parts: %s) executed against the real library "
              "under the simulator; distinct = distinct 64-bit hashes of the complete event log (scheduler decisions, waits, clock reads, "
              "API calls, callbacks, faults); non-trivial = the run fired all of these probes at least once: %s"
-             % ("; ".join("%s/%s/%s%s" % (p["scen"], p["profile"], p["flav"], "/enum" if p["mode"] == "enum" else "") for p in cfg["parts"]),
+             % ("; ".join("%s/%s/%s%s" % (p["scen"], p["profile"], p["flav"], "/enum" if p["mode"] == "enum" else "") for p in cfg["parts"] + cfg.get("extra_parts", [])),
                 ", ".join(cfg["nontrivial"]) + (" and at least one of: " + ", ".join(cfg["nontrivial_any"]) if cfg.get("nontrivial_any") else "")),
         samples=samples,
         distinct_event_logs=len(agg.hashes),
